@@ -378,6 +378,55 @@ def run(facts, cg):
             sty = ty.get('s', '')
             if ty.get('k') in ('ref', 'rawptr') and ('ChunkOffset' in sty or 'ChunkDescriptor' in sty):
                 finding('R-FETCHLIST', b.q, 'reordered:' + name, '%s at %s re-orders / thins a list that is paired by position with the buffers the reader returns' % (name, t['loc']))
+    # the readers hand the chunks out in the order they were asked for: the list a `read_chunks` implementation is given is not
+    # re-ordered, de-duplicated or thinned on its way into the stream (the caller pairs the n-th item with the n-th range)
+    STRICT = ('sort', 'sort_by', 'sort_by_key', 'sort_unstable', 'sort_unstable_by', 'sort_unstable_by_key', 'sort_by_cached_key', 'dedup', 'dedup_by',
+              'dedup_by_key', 'reverse', 'retain', 'retain_mut', 'swap', 'swap_remove', 'rotate_left', 'rotate_right', 'rev')
+    n_rd = 0
+    for b in facts.bodies.values():
+        if b.generated or not b.id.startswith('bitar::archive_reader::'):
+            continue
+        n_rd += 1
+        for bi, t in b.calls():
+            if 'q' not in t['callee'] or not t['args'] or t['args'][0]['k'] not in ('copy', 'move'):
+                continue
+            name = callee_q(t).split('::')[-1]
+            if name not in STRICT:
+                continue
+            ty = b.lty(t['args'][0]['pl']['l'])
+            if 'ChunkOffset' in ty.get('s', ''):
+                finding('R-FETCHLIST', b.q, 'reader-reordered:' + name, '%s at %s changes the order / the members of the list of ranges a reader was asked for: the items of the '
+                        'stream are paired with the ranges by position, every displaced item carries the bytes of another range' % (name, t['loc']))
+    instances.append({'rule': 'R-FETCHLIST(reader-order)', 'functions': n_rd})
+    # ... and a descriptor gets on the list only because the index of wanted chunks holds it: in the closure that asks
+    # `ChunkIndex::contains`, every value it returns is the answer of that lookup (`want_all || contains(..)` keeps chunks that
+    # are not missing at all - a shortcut decided from the *sizes* of two tables says nothing about their members)
+    n_flt = 0
+    for b in facts.bodies.values():
+        if b.generated or not b.id.startswith('bitar::archive::') or b.raw['kind'] != 'Closure' or b.raw.get('coroutine'):
+            continue
+        if not any('q' in t['callee'] and callee_q(t).endswith('ChunkIndex::contains') for _, t in b.calls()):
+            continue
+        if b.lty(0).get('k') != 'bool':
+            continue
+        n_flt += 1
+        bad = []
+        for d in b.defs().get(0, []):
+            if d[0] == 'call':
+                term = simplify(T.of_call(b, d[1], 0))
+            elif d[0] == 'assign':
+                term = simplify(T.of_rvalue(b, d[1]['rv'], 0))
+            else:
+                continue
+            if not has_call(term, 'ChunkIndex::contains'):
+                bad.append(show(simplify(T.resolve_env(term)))[:60])
+        instances.append({'rule': 'R-FETCHLIST(filter)', 'function': b.q, 'returns_other_than_the_lookup': bad})
+        for x in bad:
+            if x not in ('false', '0'):
+                finding('R-FETCHLIST', b.q, 'kept-without-lookup', 'the filter over the chunk descriptors can keep a descriptor without the index of wanted chunks holding it (%s): '
+                        'chunks that are not missing are fetched as well' % x)
+    if n_flt < 1 and n_fl >= 1:
+        finding('R-FETCHLIST', '-', 'floor-filter', 'no closure that filters the descriptors by ChunkIndex::contains was found (cannot decide)')
     if n_fl < 1:
         finding('R-FETCHLIST', '-', 'floor', 'the read_chunks call of Archive::chunk_stream was not found (cannot decide)')
 
